@@ -1012,6 +1012,7 @@ func Gen(r *core.Rng, tier string) ([]core.In[Input], bool) {
 	if tier == "thorough" || tier == "search" {
 		ins = append(ins, flowExhaustive()...)
 		ins = append(ins, hookExhaustive()...)
+		ins = append(ins, hookConvExhaustive()...)
 	}
 	if tier == "thorough" || tier == "search" {
 		// every documented kind x jqFilter {unset, object-valued, scalar} x keepFullObjectsInMemory x
@@ -1056,6 +1057,6 @@ func Gen(r *core.Rng, tier string) ([]core.In[Input], bool) {
 
 var Driver = core.Driver[Input, Obs]{
 	Spec: core.Spec{Property: "C09", Imports: []string{"Json", "C09_Model", "C09_Spec", "C09_Corr"}, Corr: "C09_Corr", Triggers: []string{"F8", "F30", "F31"}, ShrinkKey: "ctxs",
-		Rule: "lists of 1-4 binding contexts rendered by ConvertBindingContextList(version,ctxs).Json(); objects go through the real applyFilter(+RemoveFullObject), kubernetes contexts through ConvertKubeEventToBindingContext; expected jq values from /usr/bin/jq; streams: corpus (F3/F15 witnesses, doc examples, legacy string filter results), random (documented kinds x options), trigger (jq results that are not one object, F8), malformed (undocumented struct states: model agreement only), exhaustive (thorough: kind x jqFilter x keepFull x snapshots x version), flow (one kubernetes binding on a fake cluster: the files of the real informer path), hook (a hook with kubernetes and schedule/validating/mutating/conversion bindings that share names across the binding types and include different snapshots: ONE combined array rendered as Hook.Run does, namesakes in both orders), trigger-F30 / trigger-F31 (hooks in which two bindings of one type, or a validating and a mutating binding, share a name: recorded findings); non-trivial = some context carries objects, snapshots or a review; distinct = distinct input JSON"},
+		Rule: "lists of 1-4 binding contexts rendered by ConvertBindingContextList(version,ctxs).Json(); objects go through the real applyFilter(+RemoveFullObject), kubernetes contexts through ConvertKubeEventToBindingContext; expected jq values from /usr/bin/jq; streams: corpus (F3/F15 witnesses, doc examples, legacy string filter results), random (documented kinds x options), trigger (jq results that are not one object, F8), malformed (undocumented struct states: model agreement only), exhaustive (thorough: kind x jqFilter x keepFull x snapshots x version), flow (one kubernetes binding on a fake cluster: the files of the real informer path), hook (a hook with kubernetes and schedule/validating/mutating/conversion bindings that share names across the binding types and include different snapshots: ONE combined array rendered as Hook.Run does, namesakes in both orders; conversion bindings with 1-4 rules, several bindings per CRD, a request per rule), trigger-F30 / trigger-F31 (hooks in which two bindings of one type, or a validating and a mutating binding, share a name: recorded findings); non-trivial = some context carries objects, snapshots or a review; distinct = distinct input JSON"},
 	Gen: Gen, Run: Run, Render: Render, PerShard: 40, Workers: 8, CaseTimout: 20 * time.Second,
 }
